@@ -14,6 +14,7 @@ import (
 func init() {
 	register(&propSpec{
 		id: "C10", title: "Malformed source and bytecode are rejected, never mis-executed", run: runC10,
+		variants:    []buildVariant{{name: "GOARCH=386", env: []string{"GOARCH=386"}}},
 		notCovered:  "memory proportionality in general, acceptance/rejection correctness of the parser, the text the decompiler prints, termination of the lexers (decided only through recursion/allocation/bounds structure)",
 		assumptions: []string{"untrusted buffers are the []byte parameters/fields named bytecode / code of pkg/vm and pkg/decompiler", "a read is guarded when a dominating comparison of an index expression of the same base with len(buffer) leads to an error return"},
 	})
